@@ -352,6 +352,13 @@ def train_multi_agent_off_policy(
                         reset_noise_indices.append(idx)
                         if not is_vectorised:
                             obs, info = env.reset()
+                            if swap_channels:
+                                obs = {
+                                    agent_id: obs_channels_to_first(
+                                        s, expand_dims=True
+                                    )
+                                    for agent_id, s in obs.items()
+                                }
 
                 agent.reset_action_noise(reset_noise_indices)
 
